@@ -15,7 +15,7 @@
 //	       entry    <hex tag>:<status> | <hex tag>:trunc     (entry i is the request of path /e<i>; trunc: status 500 and
 //	                a body shorter than announced - not a reset: net/http itself re-sends a request whose reused connection
 //	                was reset before the first response byte, which would blur "requests received")
-//	-> err=<nil|fail|hang> served=<i>*<times>,... n=<lines> <hex tag>#<id>:<proto>:<net> ... (sorted)
+//	-> err=<nil|fail|hang|crash> served=<i>*<times>,... n=<lines> <hex tag>#<id>:<proto>:<net> ... (sorted)
 //
 // The whole pool is the YAML section a user writes (gun, ammo: uri file with a limit / passes,
 // result: phout with ids, rps, startup), decoded by the real config decoder into engine.Config;
@@ -26,6 +26,8 @@ import (
 	"context"
 	"encoding/json"
 	"fmt"
+	"os"
+	"os/exec"
 	"sort"
 	"strconv"
 	"strings"
@@ -97,7 +99,31 @@ func schedulesYAML(tok string) (string, bool) {
 	return "[" + strings.Join(ys, ", ") + "]", true
 }
 
+// runEngine runs the case in a child process of the same binary: a panic on one of the engine's own
+// goroutines (its await loop asserts with log.Panic) cannot be recovered here and would take the whole
+// harness run down; in a child it is the observation err=crash of this one case.
 func runEngine(f []string) string {
+	exe, err := os.Executable()
+	if err != nil {
+		return runEngineHere(f)
+	}
+	ctx, cancel := context.WithTimeout(context.Background(), 60*time.Second)
+	defer cancel()
+	cmd := exec.CommandContext(ctx, exe)
+	cmd.Env = append(os.Environ(), engineChildEnv+"="+strings.Join(f, " "))
+	out, err := cmd.Output()
+	if err != nil {
+		if ctx.Err() != nil {
+			return "err=hang"
+		}
+		return "err=crash"
+	}
+	return strings.TrimSpace(string(out))
+}
+
+const engineChildEnv = "HC10_ENGINE_CASE"
+
+func runEngineHere(f []string) string {
 	if len(f) != 8 {
 		return "unknown-case"
 	}
